@@ -159,6 +159,11 @@ class Engine:
             t = n.get('argType', {}).get('qualType')
             if t is None and n.get('inner'):
                 t = strip(n['inner'][0]).get('type', {}).get('qualType') or ('expr:' + self.render(n['inner'][0], p.copy()))
+            if n.get('name') == 'sizeof' or n.get('name') is None:
+                import re as _re
+                m = _re.fullmatch(r'(?:const )?(?:unsigned |signed )?char\[(\d+)\]', t or '')
+                if m: return m.group(1)                    # sizeof of a char array is its element count
+                if t in ('char', 'unsigned char', 'signed char', 'const char'): return '1'
             return f'sizeof({t})'
         if k == 'ConditionalOperator':
             # value-level ?: (conditions fork in cond_paths); keep syntactic
